@@ -26,7 +26,9 @@ MODULES = ["TypelibModel.Props.C11", "TypelibModel.Props.Dispatch"]
 TABLES = True
 RULE = ("T from U (depth <= 2/3); chains of length 1-3 over the seven wrapper kinds where Python permits them (NewType only over "
         "class-like targets, ClassVar at the root only, Final at the root and on fields); positions root / collection argument / "
-        "mapping value / tuple member / union member / class field; inputs: valid values of T and the C03 junk pool")
+        "mapping value / tuple member / union member / class field; inputs: valid values of T and the C03 junk pool; 17 chains (alias, "
+        "string-valued alias, NewType, length 1-3) over the Optional[Node] that closes a recursion, at 5 positions of a same-named field "
+        "of two classes on the recursive path (3 class layouts), each compared with the unwrapped family")
 ASSUMPTIONS = ["a reference is issued from code whose globals contain the name (the defining module) or as module-qualified text"]
 TRUSTED = ["harness generators"]
 
@@ -469,6 +471,140 @@ def bytes_chain_probe(res):
         res.count("oracle:binary-wrapper-chains-transparent", o["n"])
 
 
+# ---- wrapper chains over the union that closes a RECURSION: families of classes which differ only in how W names Optional[Node]
+REC_CHAINS = ["", "A", "N", "S", "AA", "NA", "AN", "NN", "SA", "AS", "NS", "ANA", "NNA", "NAN", "AAN", "NAA", "ASN", "NSA"]
+REC_POSITIONS = ["W", "typing.Union[W, int]", "typing.List[W]", "typing.Dict[str, W]", "typing.Tuple[W, int]"]
+REC_TEMPLATES = {"extra": """
+from __future__ import annotations
+import dataclasses, typing, datetime
+@dataclasses.dataclass
+class Node:
+    x: {pos} = None
+    d: datetime.date = datetime.date(2020, 1, 2)
+@dataclasses.dataclass
+class Head:
+    x: {pos} = None
+    n: typing.Optional[Node] = None
+{wdef}
+""", "bare": """
+from __future__ import annotations
+import dataclasses, typing, datetime
+@dataclasses.dataclass
+class Node:
+    x: {pos} = None
+@dataclasses.dataclass
+class Head:
+    x: {pos} = None
+{wdef}
+""", "via": """
+from __future__ import annotations
+import dataclasses, typing, datetime
+@dataclasses.dataclass
+class Node:
+    y: {pos} = None
+    d: datetime.date = datetime.date(2020, 1, 2)
+@dataclasses.dataclass
+class Head:
+    n: typing.List[Node] = dataclasses.field(default_factory=list)
+    x: {pos} = None
+{wdef}
+"""}
+REC_JOBS = [(p_, t_) for p_ in REC_POSITIONS for t_ in ("extra", "bare", "via")]
+
+
+def _rec_family_src(chain, pos, tmpl):
+    lines, cur = [], "typing.Optional[Node]"
+    for i, w in enumerate(reversed(chain)):
+        name = f"W{i}"
+        if w == "A":
+            lines.append(f"{name} = typing.TypeAliasType('{name}', {cur})")
+        elif w == "S":
+            lines.append(f"{name} = typing.TypeAliasType('{name}', '{cur}')")
+        else:
+            lines.append(f"{name} = typing.NewType('{name}', {cur})")
+        cur = name
+    lines.append(f"W = {cur}")
+    return REC_TEMPLATES[tmpl].format(wdef="\n".join(lines), pos=pos)
+
+
+def _rec_chain_child(job):
+    pos, tmpl = job
+    import sys
+    import types
+    import warnings
+    warnings.simplefilter("ignore")
+    import typelib
+
+    def wrapv(v):
+        return {"W": v, "typing.Union[W, int]": v, "typing.List[W]": [v, None], "typing.Dict[str, W]": {"k": v},
+                "typing.Tuple[W, int]": [v, "7"]}[pos]
+
+    def shape(o):
+        import dataclasses
+        if dataclasses.is_dataclass(o) and not isinstance(o, type):
+            return [type(o).__name__, {f.name: shape(getattr(o, f.name)) for f in dataclasses.fields(o)}]
+        if isinstance(o, dict):
+            return {k: shape(v) for k, v in o.items()}
+        if isinstance(o, (list, tuple)):
+            return [type(o).__name__, [shape(v) for v in o]]
+        return repr(o)
+
+    def observe(chain):
+        name = f"vm_c11_rec_{chain or 'plain'}_{tmpl}"
+        mod = types.ModuleType(name)
+        sys.modules[name] = mod
+        exec(_rec_family_src(chain, pos, tmpl), mod.__dict__)
+        Node, Head = mod.Node, mod.Head
+        fx = "y" if tmpl == "via" else "x"           # the field of Node that carries the position
+        none = [None, 1] if pos == "typing.Tuple[W, int]" else None
+        leaf = {fx: none, "d": "2021-03-04"} if tmpl != "bare" else {fx: none}
+        inner = {fx: wrapv(leaf), **({"d": "2022-05-06"} if tmpl != "bare" else {})}
+        inputs = [{"x": wrapv(inner)}, {"x": wrapv(None)}, {"x": wrapv(leaf)}, {"x": "junk"}, {}, '{"x": null}']
+        if tmpl == "extra":
+            inputs += [{"x": wrapv(inner), "n": inner}, '{"x": null, "n": {"d": "2020-02-02"}}']
+        if tmpl == "via":
+            inputs += [{"x": wrapv(leaf), "n": [inner, leaf]}]
+        if pos == "typing.Union[W, int]":
+            inputs += [{"x": "7"}, {"x": {fx: "5"}}]
+        out = []
+        for x in inputs:
+            for label, f in (("unmarshal", lambda: typelib.unmarshal(Head, x)),
+                             ("marshal-of-unmarshal", lambda: typelib.marshal(typelib.unmarshal(Head, x))),
+                             ("marshal-t", lambda: typelib.marshal(typelib.unmarshal(Head, x), t=Head)),
+                             ("codec", lambda: typelib.codec(Head).decode(typelib.codec(Head).encode(typelib.unmarshal(Head, x))))):
+                try:
+                    out.append([label, "ok", shape(f())])
+                except Exception as e:  # noqa: BLE001
+                    out.append([label, "raised", "ValueError" if isinstance(e, ValueError) else type(e).__name__])
+        return out
+    plain = observe("")
+    bad, n = [], 0
+    for chain in REC_CHAINS[1:]:
+        got = observe(chain)
+        n += len(got)
+        if got != plain:
+            d = next((g, p_) for g, p_ in zip(got, plain) if g != p_)
+            bad.append([chain, repr(d)[:400]])
+    return {"bad": bad, "n": n, "plain_ok": sum(1 for o in plain if o[1] == "ok")}
+
+
+def rec_chain_probe(res):
+    from .. import iso
+    outs = iso.map_isolated(_rec_chain_child, REC_JOBS, timeout=120.0)
+    for (pos, tmpl), o in zip(REC_JOBS, outs):
+        if not isinstance(o, dict) or "bad" not in o:
+            raise RuntimeError(f"harness: recursive chain probe failed: {pos} {tmpl}: {o}")
+        if not o["plain_ok"]:
+            raise RuntimeError(f"harness: recursive chain probe is vacuous at {pos}")
+        res.case({"family": "wrapper-chains-over-recursive-union", "pos": pos, "classes": tmpl}, True)
+        for chain, diff in o["bad"]:
+            res.failures.append({"what": f"chain {chain} (A alias, S string-valued alias, N NewType; outermost first) over Optional[Node] at "
+                                         f"`x: {pos}` of the recursive classes Head / Node ({tmpl}) is not transparent: (wrapped, plain) = {diff}",
+                                 "input": {"rec_chain": [chain, pos, tmpl]}})
+        if not o["bad"]:
+            res.count("oracle:recursive-wrapper-chains-transparent", o["n"])
+
+
 def explore(ctx):
     res = Result()
     res.rule = RULE
@@ -538,6 +674,7 @@ def explore(ctx):
             else:
                 res.count("oracle:reference-ok")
     bytes_chain_probe(res)
+    rec_chain_probe(res)
     return res
 
 
@@ -552,6 +689,14 @@ def replay(failure):
         print(json.dumps(o, indent=1, default=str)[:3000])
         return bool(o.get("bad")) if isinstance(o, dict) else True
     inp = failure["input"]
+    if "rec_chain" in inp:
+        from .. import iso
+        chain, pos, tmpl = inp["rec_chain"]
+        o = iso.map_isolated(_rec_chain_child, [(pos, tmpl)], timeout=120.0)[0]
+        bad = [b for b in o.get("bad", [])] if isinstance(o, dict) else o
+        print(_rec_family_src(chain, pos, tmpl))
+        print(json.dumps(bad, indent=1, default=str)[:3000])
+        return bool(bad)
     if "reference" in inp:
         core.import_typelib()
         out = iso.map_isolated(refs_child, [inp.get("seed", 0)])[0]
